@@ -155,6 +155,10 @@ def shared_table_rule(R7, mods):
                     for tg in (n.targets if isinstance(n, ast.Assign) else [n.target]):
                         if isinstance(tg, ast.Subscript):
                             tgt, what = tg.value, 'item assignment'
+                    if isinstance(n, ast.AugAssign) and isinstance(n.target, ast.Name) and isinstance(n.op, (ast.Add, ast.BitOr, ast.Mult)) \
+                            and isinstance(n.value, (ast.List, ast.ListComp, ast.Dict, ast.Set, ast.Call, ast.Name)):
+                        # x += [..] extends the list x is bound to, in place
+                        tgt, what = n.target, 'augmented assignment %s' % norm(n)
                 elif isinstance(n, ast.Delete):
                     for tg in n.targets:
                         if isinstance(tg, ast.Subscript):
